@@ -50,33 +50,39 @@ ASSUMPTIONS = ["an instruction is 'decodable' when mn.dis returns without raisin
 
 ADDRS = ("0", "0x1000", "top-8")
 
-# menu truncations per tier (part of the stated bound) -------------------------------------------------
+# which sources of which targets, and the menu truncations of the cubes, per tier (the stated bound) -----------
+_T = g.LIFT_TARGETS
+_NAT = [t for t in g.NATIVE if t in _T]
+_SWP = [t for t in g.SWAPPED if t in _T]
 BOUNDS = {
+    # quick: curated vectors of every target; bit flips and cube for one byte order per architecture (the decode
+    # tables and the semantics are shared, the byte order only permutes the bytes fetched); the cube's 16-bit axis
+    # restricted to the multiples of 8 (stride), x86: 2 ModRM bytes x 1 tail
     "quick": {
-        "sources": ["curated", "bitflip", "cube"],
-        # quick: the cube only for one byte order of each architecture (the decode tables are shared, the byte
-        # order only permutes the bytes fetched); curated vectors and bit flips for every target
-        "cube_targets": ["x86_16", "x86_32", "x86_64", "arml", "armtl", "aarch64l", "mips32b", "ppc32b", "msp430", "mepb"],
-        "cube": {
-            "fixed32": {"lo": 1, "hi": 0},
-            "thumb": {"ext": 1},
-            "msp430": {"ext": 1},
-            "word16": {"ext": 1},
-            "x86": {"prefix": 7, "maps": 2, "second": 4, "tail": 1},
-        },
-        "shard": 2048,
+        "curated": _T, "bitflip": _NAT, "bytesub": [],
+        "cube": g.cube_dims({
+            "fixed32": {"lo": 1, "hi": 0, "stride": 8},
+            "thumb": {"ext": 1, "stride": 8},
+            "msp430": {"ext": 1, "stride": 8},
+            "word16": {"ext": 1, "stride": 8},
+            "x86": {"prefix": 7, "maps": 2, "second": 2, "tail": 1},
+        }, _NAT),
+        "shard": 1024,
     },
     "thorough": {
-        "sources": ["curated", "bitflip", "bytesub", "cube"],
-        "cube_targets": list(g.LIFT_TARGETS),
-        "cube": {
-            "fixed32": {"lo": 8, "hi": 4},
-            "thumb": {"ext": 8},
-            "msp430": {"ext": 8},
-            "word16": {"ext": 8},
-            "x86": {"prefix": 7, "maps": 2, "second": 16, "tail": 8},
-        },
-        "shard": 8192,
+        "curated": _T, "bitflip": _T, "bytesub": _NAT,
+        "cube": dict(g.cube_dims({
+            "fixed32": {"lo": 4, "hi": 2},
+            "thumb": {"ext": 4},
+            "msp430": {"ext": 4},
+            "word16": {"ext": 4},
+            "x86": {"prefix": 7, "maps": 2, "second": 8, "tail": 4},
+        }, _NAT), **g.cube_dims({
+            "fixed32": {"lo": 1, "hi": 0},
+            "thumb": {"ext": 1},
+            "word16": {"ext": 1},
+        }, _SWP)),
+        "shard": 4096,
     },
 }
 
@@ -228,24 +234,18 @@ def lift_once(name, raw, a, instr=None):
     return "lifted", kinds, cnt, instr
 
 
-def judge(name, raw):
-    """-> (counters, violations) for one element at all addresses."""
+def judge(name, raw, first=None):
+    """-> (counters, violations) for one element at all addresses. first: the freshly decoded instruction."""
     counters = collections.Counter()
     vs = []
     done = set()
-    keep = None         # (instr, decoded args): decode once; the lifters do not modify the instruction, only the
-    for a in ADDRS:     # engine's relabelling does (then the bytes are decoded afresh for the next address)
-        if keep is not None:
-            keep[0].args = list(keep[1])
-            outcome, kinds, cnt, instr = lift_once(name, raw, a, keep[0])
-        else:
-            instr = g.decode(name, raw)
-            args0 = list(instr.args) if instr is not None else None
-            outcome, kinds, cnt, instr = lift_once(name, raw, a, instr)
-            if instr is not None:
-                keep = (instr, args0)
-        if cnt.get("relabelled") or any(k.startswith("prep_raised") for k in cnt):
-            keep = None
+    instr = first if first is not None else g.decode(name, raw)
+    if instr is None:
+        return counters, vs
+    args0 = list(instr.args)        # decode once: dstflow2label replaces entries of instr.args, the lifters leave the
+    for a in ADDRS:                 # instruction alone; the decoded arguments are put back before every address
+        instr.args = list(args0)
+        outcome, kinds, cnt, instr = lift_once(name, raw, a, instr)
         counters[outcome] += 1
         counters.update(cnt)
         if outcome == "lifted" and not kinds:
@@ -272,7 +272,7 @@ def _shard(shard):
     best = {}           # sig -> (sortkey, violation, count)
     sample = None
     for raw, instr in g.iter_shard(shard, stats):
-        c, vs = judge(name, raw)
+        c, vs = judge(name, raw, instr)
         counters.update(c)
         if sample is None and c.get("wellformed"):
             sample = {"target": name, "bytes": bytes(instr.b).hex(), "text": " ".join(str(instr).split())}
@@ -290,18 +290,7 @@ def _shard(shard):
 
 
 def plan(tier, only=None):
-    b = BOUNDS[tier]
-    shards = []
-    for name in g.LIFT_TARGETS:
-        if only and name not in only:
-            continue
-        t = g.target(name)
-        for kind in b["sources"]:
-            if kind == "cube" and name not in b["cube_targets"]:
-                continue
-            dims = b["cube"][t.kind] if kind == "cube" else None
-            shards += g.shards(name, kind, dims, b["shard"])
-    return shards
+    return g.make_plan(BOUNDS[tier], g.LIFT_TARGETS, only)
 
 
 def run(ctx):
@@ -309,10 +298,11 @@ def run(ctx):
     shards = plan(tier)
     for name in g.LIFT_TARGETS:          # import / warm every architecture before the pool forks
         _lift_env(name)
-        judge(name, g.raw_of(name, "curated", g.curated(name)[0]))
+        raw = g.raw_of(name, "curated", g.curated(name)[0])
+        judge(name, raw, g.decode(name, raw))
     res = ctx.pmap(_shard, shards)
-    return g.fold(ctx, res, BOUNDS[tier], extra_bounds={"addresses": list(ADDRS)},
-                  nontrivial=lambda c: c.get("lifted", 0))
+    bounds = dict(BOUNDS[tier], sizes=g.plan_sizes(BOUNDS[tier], g.LIFT_TARGETS), addresses=list(ADDRS))
+    return g.fold(ctx, res, bounds, nontrivial=lambda c: c.get("lifted", 0))
 
 
 def replay(case):
